@@ -76,21 +76,17 @@ def wasserstein(dgm1, dgm2, matching=False):
     DUL = np.sqrt(np.sum((S[:, None, :] - T[None, :, :]) ** 2, axis=2))
 
     # Put diagonal elements into the matrix
-    # Rotate the diagrams to make it easy to find the straight line
-    # distance to the diagonal
-    cp = np.cos(np.pi/4)
-    sp = np.sin(np.pi/4)
-    R = np.array([[cp, -sp], [sp, cp]])
-    S = S[:, 0:2].dot(R)
-    T = T[:, 0:2].dot(R)
+    # The straight line distance of (b, d) to the diagonal is (d - b)/sqrt(2), taken from the
+    # coordinate difference: rotating the diagram by pi/4 computes it as d*cos - b*sin with cos and
+    # sin one ulp apart, which rounds at the size of the coordinates instead of the persistence
     D = np.zeros((M+N, M+N))
     np.fill_diagonal(D, 0)
     D[0:M, 0:N] = DUL
     UR = np.inf*np.ones((M, M))
-    np.fill_diagonal(UR, S[:, 1])
+    np.fill_diagonal(UR, (S[:, 1] - S[:, 0]) / np.sqrt(2))
     D[0:M, N:N+M] = UR
     UL = np.inf*np.ones((N, N))
-    np.fill_diagonal(UL, T[:, 1])
+    np.fill_diagonal(UL, (T[:, 1] - T[:, 0]) / np.sqrt(2))
     D[M:N+M, 0:N] = UL
 
     # Step 2: Run the hungarian algorithm
